@@ -121,7 +121,9 @@ Refused(e) == e.before.kind = "QBits" /\ e.op = "to" /\ e.outcome = "ValueError"
 
 StepOK(e) ==
   IF ~e.twin_ok THEN TRUE                        \* invalid float program: nothing is claimed from here on
-  ELSE IF e.outcome # "value" THEN (IF Judge = "C05" THEN Refused(e) ELSE TRUE)
+  \* an operation that raises is C05's business; one that RETURNS a quantized tensor which then cannot be dequantized (its scale does
+  \* not broadcast against its payload) has returned an ill-formed tensor: C06's business as well
+  ELSE IF e.outcome # "value" THEN (IF Judge = "C05" THEN Refused(e) ELSE (Len(e.outcome) < 11 \/ SubSeq(e.outcome, 1, 11) # "dequantize:"))
   ELSE IF Judge = "C05" THEN ValueOK(e)
   ELSE WellFormedProj(e.after, e) /\ MoveOK(e)
 
